@@ -8,7 +8,7 @@ from __future__ import annotations
 
 import typing as T
 
-HAZARDS = ['quote', 'parens', 'linesep', 'ws_newline', 'raw_newline', 'cr', 'ordercmp']
+HAZARDS = ['quote', 'parens', 'linesep', 'ws_newline', 'raw_newline', 'cr', 'ordercmp', 'nested_edit']
 
 CLEAN_STRS = ['abc', 'a b', 'x-y_z', 'a\\\\b', 'C:\\\\dir\\\\f', 'é', '中文', 'naïve 😀', '@0@', '#nc', 'say "hi"',
               'tab\\there', '\\x41bc', '\\u00e9t', 'a, b', 'k=v', '-DX=1', '', 'end\\\\', '(p)', 'not (a and b)', '%d', 'f{x}']
@@ -229,19 +229,32 @@ def value_text(eg: ExprGen, kind: str, d: int) -> str:
     raise AssertionError(kind)
 
 
-def join_args(rng, args: T.List[str], comments: bool) -> str:
-    """argument list text: one line, or broken over lines, optionally with comments between arguments"""
-    style = rng.random()
-    if style < 0.55 and not comments:
+LAYOUTS = ['one', 'one', 'per', 'mixed']
+
+
+def join_args(rng, args: T.List[str], comments: bool, layout: T.Optional[str] = None) -> str:
+    """argument list text in one of the layouts: everything on one line, one element per line, mixed (several
+    elements per line, lines broken at random places); optionally with comments between arguments"""
+    if layout is None:
+        layout = rng.choice(LAYOUTS)
+    if comments and layout == 'one':
+        layout = 'mixed'
+    if layout == 'one':
         return ', '.join(args)
     out = []
+    line: T.List[str] = []
     for i, a in enumerate(args):
-        c = ''
-        if comments and rng.random() < 0.4:
-            c = ' # ' + rng.choice(['note', 'c%d' % i, 'was: old()', "it's", 'x, y'])
         last = i == len(args) - 1
         sep = ',' if (not last or rng.random() < 0.5) else ''
-        out.append(a + sep + c)
+        line.append(a + sep)
+        c = ''
+        brk = layout == 'per' or last or rng.random() < 0.4
+        if comments and rng.random() < 0.4:
+            c = ' # ' + rng.choice(['note', 'c%d' % i, 'was: old()', "it's", 'x, y'])
+            brk = True
+        if brk:
+            out.append(' '.join(line) + c)
+            line = []
     return '\n  ' + '\n  '.join(out) + '\n'
 
 
@@ -321,8 +334,14 @@ def gen_project(rng, hazard: T.Optional[str] = None, ntargets: T.Optional[int] =
         name = 't%d' % i
         func = rng.choice(TARGET_FUNCS)
         srcs = rng.sample(pool, rng.randint(1, 4))
-        form = rng.choice(['inline', 'inline', 'var', 'files', 'varfiles', 'varfiles_list', 'kw', 'mixed'])
-        tm: T.Dict[str, T.Any] = {'func': func, 'form': form, 'srcs': list(srcs), 'shared': False, 'extra': None}
+        form = rng.choice(['inline', 'inline', 'var', 'files', 'varfiles', 'varfiles_list', 'kw', 'mixed',
+                           'files2', 'arrays2', 'files_plus', 'kw_lists', 'files2', 'arrays2'])
+        if hazard == 'nested_edit':
+            form = 'inline_and_files'
+        if form in ('files2', 'arrays2', 'files_plus', 'kw_lists', 'inline_and_files'):
+            srcs = rng.sample(pool, rng.randint(2, 5))
+        tm: T.Dict[str, T.Any] = {'func': func, 'form': form, 'srcs': list(srcs), 'shared': False, 'extra': None,
+                                  'lists': [list(srcs)]}
         pre: T.List[str] = []
         args: T.List[str] = ["'%s'" % name]
         q = lambda l: ', '.join("'%s'" % s_ for s_ in l)  # noqa: E731
@@ -348,14 +367,31 @@ def gen_project(rng, hazard: T.Optional[str] = None, ntargets: T.Optional[int] =
             args.append('srcs%d' % i)
         elif form == 'kw':
             pass
+        elif form in ('files2', 'arrays2', 'files_plus', 'kw_lists', 'inline_and_files'):
+            # the sources are spread over two or three sibling lists (usually on ONE line)
+            nl = 2 if len(srcs) < 3 or rng.random() < 0.7 else 3
+            cuts = sorted(rng.sample(range(1, len(srcs)), nl - 1))
+            parts = [srcs[a:b] for a, b in zip([0] + cuts, cuts + [len(srcs)])]
+            tm['lists'] = [list(p_) for p_ in parts]
+            if form == 'files2':
+                args += ['files(%s)' % q(p_) for p_ in parts]
+            elif form == 'arrays2':
+                args += ['[%s]' % q(p_) for p_ in parts]
+            elif form == 'files_plus':
+                args.append(' + '.join(rng.choice(['files(%s)', '[%s]']) % q(p_) for p_ in parts))
+            elif form == 'inline_and_files':
+                args += ["'%s'" % s_ for s_ in parts[0]] + ['files(%s)' % q(p_) for p_ in parts[1:]]
         elif form == 'mixed':
             k = rng.randint(0, len(srcs) - 1)
+            tm['lists'] = [list(srcs[:k]), list(srcs[k:])]
             pre.append('srcs%d = [%s]' % (i, q(srcs[:k])))
             args.append('srcs%d' % i)
             args += ["'%s'" % s_ for s_ in srcs[k:]]
         kws: T.List[str] = []
         if form == 'kw':
             kws.append('sources: [%s]' % q(srcs))
+        if form == 'kw_lists':
+            kws.append('sources: [' + ', '.join(rng.choice(['files(%s)', '[%s]']) % q(p_) for p_ in tm['lists']) + ']')
         # extra_files
         r = rng.random()
         if r < 0.2:
@@ -370,6 +406,11 @@ def gen_project(rng, hazard: T.Optional[str] = None, ntargets: T.Optional[int] =
             ex = rng.sample(extra_pool, 1)
             kws.append("extra_files: '%s'" % ex[0])
             tm['extra'] = ex
+        elif r < 0.5:
+            ex = rng.sample(extra_pool, rng.randint(2, 3))
+            kws.append('extra_files: [files(%s), %s]' % (q(ex[:1]), rng.choice(['files(%s)', '[%s]']) % q(ex[1:])))
+            tm['extra'] = ex
+            tm['extra_lists'] = [ex[:1], ex[1:]]
         # kwargs known to the `kwargs` command, with literal values
         kwm: T.Dict[str, T.Any] = {}
         for k in rng.sample(TGT_KW_BOOL, rng.randint(0, 2)):
@@ -403,11 +444,13 @@ def gen_project(rng, hazard: T.Optional[str] = None, ntargets: T.Optional[int] =
         tm['kw'] = kwm
         in_if = rng.random() < 0.15
         tm['in_if'] = in_if
-        assign = rng.random() < 0.8 or form == 'kw'
+        assign = rng.random() < 0.8 or form in ('kw', 'kw_lists')
         tm['assigned'] = assign
-        stmt = ('%s = ' % name if assign else '') + func + '(' + join_args(rng, args + kws, rng.random() < 0.2) + ')'
-        if rng.random() < 0.15:
-            stmt += '  # ' + rng.choice(['main target', 'keep'])
+        multi = len(tm['lists']) > 1 and form != 'mixed'
+        layout = rng.choice(['one', 'one', 'one', 'mixed', 'per']) if multi else None
+        stmt = ('%s = ' % name if assign else '') + func + '(' + join_args(rng, args + kws, rng.random() < 0.2 and not multi, layout) + ')'
+        if rng.random() < (0.5 if multi else 0.3):
+            stmt += '  # ' + rng.choice(['main target', 'keep', 'trailing, comment'])
         if rng.random() < 0.3:
             pre.insert(0, '# target ' + name)
         if in_if:
@@ -463,9 +506,22 @@ def gen_commands(rng, meta: T.Dict[str, T.Any], n: int) -> T.List[T.Dict[str, T.
             cmds.append({'type': 'target', 'target': t, 'operation': 'src_add', 'sources': fs})
             last_add = (t, 'src', fs)
         elif r < 0.42 and live:
-            t = rng.choice(live)
+            multi_t = [x for x in live if len([l for l in (targets[x].get('lists') or []) if l]) > 1]
+            t = rng.choice(multi_t) if multi_t and rng.random() < 0.6 else rng.choice(live)
             have = targets[t].get('srcs') or []
-            fs = rng.sample(have, min(len(have), rng.randint(1, 2))) if have and rng.random() < 0.85 else [rng.choice(meta['pool'])]
+            lists = [l for l in (targets[t].get('lists') or []) if l]
+            if len(lists) > 1 and rng.random() < 0.8:
+                # one file from each list (two or more nodes edited by ONE command), listed left-to-right or right-to-left
+                fs = [rng.choice(l) for l in lists]
+                if rng.random() < 0.3:
+                    fs += [f for f in rng.sample(have, 1) if f not in fs]
+                r2 = rng.random()
+                if r2 < 0.4:
+                    fs.reverse()
+                elif r2 < 0.55:
+                    rng.shuffle(fs)
+            else:
+                fs = rng.sample(have, min(len(have), rng.randint(1, 3))) if have and rng.random() < 0.85 else [rng.choice(meta['pool'])]
             cmds.append({'type': 'target', 'target': t, 'operation': 'src_rm', 'sources': fs})
             last_rm = (t, 'src', fs)
         elif r < 0.50 and live:
@@ -476,7 +532,13 @@ def gen_commands(rng, meta: T.Dict[str, T.Any], n: int) -> T.List[T.Dict[str, T.
         elif r < 0.55 and live:
             t = rng.choice(live)
             have = targets[t].get('extra') or []
-            fs = [rng.choice(have)] if have else [rng.choice(meta['extra_pool'])]
+            xl = targets[t].get('extra_lists')
+            if xl and rng.random() < 0.8:
+                fs = [rng.choice(l) for l in xl]
+                if rng.random() < 0.5:
+                    fs.reverse()
+            else:
+                fs = [rng.choice(have)] if have else [rng.choice(meta['extra_pool'])]
             cmds.append({'type': 'target', 'target': t, 'operation': 'extra_files_rm', 'sources': fs})
             last_rm = (t, 'extra', fs)
         elif r < 0.60:
